@@ -38,7 +38,12 @@ CONNECTION WITH THE USE OR PERFORMANCE OF THIS SOFTWARE.
 
 // Size of the ring buffer used to hold the history.
 
+#if defined(LHASA_VERIF) && defined(LHASA_VERIF_RING_BUFFER_SIZE)
+/* verification hook: scaled history window (same ring arithmetic) */
+#define RING_BUFFER_SIZE LHASA_VERIF_RING_BUFFER_SIZE
+#else
 #define RING_BUFFER_SIZE 16384
+#endif
 
 // Maximum length of a command representing a block of bytes:
 
